@@ -8,3 +8,16 @@ open BV
 #print axioms C15_readme_conversions
 #print axioms C15_readme_shape
 #print axioms C15_odd_shape_witness
+#print axioms C15_readme_tree_tie
+#print axioms C15_derived_accepts_own_rendering
+#print axioms C15_vok_transfer
+#print axioms C15_vok_transfer_nonfinal
+#print axioms C15_vok_transfer_relocated
+#print axioms C15_pepReady_tagCoh
+#print axioms C15_derived_accepts_of_original
+#print axioms C15_readme_derived_wf
+#print axioms C15_mandatory_tag_witness
+#print axioms C15_pepReady_witnesses
+#print axioms C15_derived_has_pytagnum
+#print axioms C15_normal_form_parts
+#print axioms C15_readme_derived_normal
